@@ -473,7 +473,7 @@ def install(B, LenV):
             if name == "__iter__":
                 return Builtin("iter", lambda I_, _o=o: _o)
             if name in ("close",):
-                return Builtin("close", lambda I_: None)
+                return Builtin("close", lambda I_, _o=o: I_.gen_close(_o) if isinstance(_o, GenV) else None)
             raise Unknown("generator method " + name)
         if isinstance(o, Callback):
             if name == "__name__":
